@@ -595,7 +595,7 @@ impl Session {
             Err(p) => {
                 // the solver may be in an arbitrary state: do not reuse, but keep for log access
                 self.solver = Some(solver);
-                if p.message.starts_with(DEADLOCK_MSG) {
+                if p.message.starts_with("HARNESS-DEADLOCK") {
                     Outcome::Deadlock
                 } else if p.message.starts_with(STEPS_MSG) {
                     Outcome::StepBudget
